@@ -8,6 +8,7 @@ import PyomaVerif.Ops.C20
 import PyomaVerif.Ops.C03
 import PyomaVerif.Ops.C18
 import PyomaVerif.Ops.C14
+import PyomaVerif.Ops.C14Own
 import PyomaVerif.Ops.C19
 import PyomaVerif.Ops.C10
 import PyomaVerif.Ops.C11
@@ -41,6 +42,7 @@ def allOps : List (String × (Json → Except String Json)) :=
   ++ PV.Ops.C02State.ops
   ++ PV.Ops.C06All.ops
   ++ PV.Ops.BuildHank.ops
+  ++ PV.Ops.C14Own.ops
 
 def handle (line : String) : String :=
   match Json.parse line with
